@@ -287,6 +287,46 @@ def control_dependences(fn, target):
     return out
 
 
+def deciding_branches(fn, target, transitive=True):
+    """Control dependence in the classical sense: the branches that DECIDE whether `target` executes.  A branch block B is
+    one if `target` post-dominates one of its successors (every path from there to the normal exit passes the target) but
+    not all of them.  A later, independent early return therefore makes the target depend on that return's test only,
+    not on every branch before it.  With transitive=True the branches deciding those branches are included.
+    Returns [(cond core, block)]."""
+    g = fn.cfg
+    out = []
+    seen_blocks = set()
+    todo = [target]
+    done = set()
+    while todo:
+        t = todo.pop()
+        if t.id in done:
+            continue
+        done.add(t.id)
+        tp = g.position(t)
+        if tp is None:
+            continue
+        for B in g.blocks.values():
+            if B.id not in g.reachable or B.cond is None or tp[0] == B.id:
+                continue
+            succs = [x for x in B.succs if x is not None]
+            if len(set(succs)) < 2:
+                continue
+            pd = []
+            for x in set(succs):
+                reach = t.id in g.reachable_from((x, -1))
+                esc = g.escapes((x, -1), {t.id}, goal="exit", through_abort=False) is not None
+                pd.append(reach and not esc)
+            if any(pd) and not all(pd):
+                if B.id not in seen_blocks:
+                    seen_blocks.add(B.id)
+                    core, neg = X.strip_bool(B.cond)
+                    out.append((core, B))
+                    if transitive and B.elems:
+                        todo.append(B.elems[-1])
+    return out
+
+
 def owner_closure(P, names):
     """A who-may table names the functions that own some state.  A *static* helper all of whose callers already belong to
     the set acts on their behalf (it is what an 'extract function' refactoring produces): returns {helper: a caller}."""
